@@ -7,7 +7,9 @@
 //	byte monitor     index-derived pattern in every allocated block, address ranges inside the buffer, outside
 //	                 every segment header, pairwise disjoint
 //	reopen monitor   a second allocator on a copy of the bytes (inmem), on a second mapping of the file, after
-//	                 Close+reopen of the file, and on os.ReadFile of the file reproduces the model's set
+//	                 Close+reopen of the file, and on os.ReadFile of the file reproduces the model's set; a mapping of
+//	                 only the head of the file (live or after Close) reproduces the set of the segments it covers
+//	                 and leaves the whole file's set as it was
 //	concurrency      G goroutines on one allocator, CAS-claimed owner table (main pass: light; race pass: heavy)
 package c17
 
@@ -857,6 +859,142 @@ func (m *mon) readFile() (v *vio, herr error) {
 	return m.reopenBytes(data, "readfile"), nil
 }
 
+// prefixLens lists the lengths (multiples of files.BlockSize, shorter than the file) at which the head of the file
+// is mapped on its own: one file block, the file less one file block, and every segment boundary rounded down and up.
+func (m *mon) prefixLens() []int64 {
+	bsz := int64(files.BlockSize)
+	set := map[int64]bool{}
+	add := func(p int64) {
+		if p >= bsz && p < m.size && p%bsz == 0 {
+			set[p] = true
+		}
+	}
+	add(bsz)
+	add(m.size - bsz)
+	for s := 1; s <= m.segs && len(set) < 16; s++ {
+		e := int64(s) * m.segSz
+		add(e / bsz * bsz)
+		add(roundUp(e, bsz))
+	}
+	l := make([]int64, 0, len(set))
+	for p := range set {
+		l = append(l, p)
+	}
+	sort.Slice(l, func(i, j int) bool { return l[i] < l[j] })
+	return l
+}
+
+// checkPrefix opens an allocator on a mapping of the first p bytes of the file: the whole segments inside the
+// mapped region are the same bytes as the head of the full buffer, so it must reproduce exactly the model's blocks
+// of those segments; a region shorter than one segment must be rejected with ErrInvalid.
+func (m *mon) checkPrefix(mfp *files.MMFile, p int64) *vio {
+	const how = "partial-mapping"
+	if mfp.Size() != p {
+		return vf("blocks/reopen/"+how+"/size", "a mapping of the first %d bytes has Size()=%d", p, mfp.Size())
+	}
+	k := int(p / m.segSz)
+	var b *cbytes.Blocks
+	var err error
+	if pan := guard(func() { b, err = cbytes.NewBlocks(m.bs, mfp, false) }); pan != nil {
+		return vf("blocks/reopen/"+how+"/panic", "NewBlocks(bs=%d, fit=false) on a mapping of the first %d bytes panicked: %v", m.bs, p, pan)
+	}
+	if k == 0 {
+		if err == nil {
+			return vf("blocks/reopen/"+how+"/undersized-accepted", "NewBlocks(bs=%d, fit=false) on a mapping of %d bytes yields an allocator although one segment needs %d bytes", m.bs, p, m.segSz)
+		}
+		if !errors.Is(err, gerrors.ErrInvalid) {
+			return vf("blocks/reopen/"+how+"/wrong-error-class", "NewBlocks(bs=%d, fit=false) on a mapping of %d bytes (< one segment): the error is not ErrInvalid: %v", m.bs, p, err)
+		}
+		return nil
+	}
+	if err != nil || b == nil {
+		return vf("blocks/reopen/"+how+"/rejected", "NewBlocks(bs=%d, fit=false) on a mapping of the first %d bytes (%d whole segments) failed: %v", m.bs, p, k, err)
+	}
+	sub := &mon{bs: m.bs, size: p, fit: false, segs: k, B: m.B, count: k * m.B, segSz: m.segSz, fastProbe: m.fastProbe}
+	sub.alloc = m.alloc[:sub.count]
+	for _, i := range m.list {
+		if int(i) < sub.count {
+			sub.list = append(sub.list, i)
+		}
+	}
+	sub.n = len(sub.list)
+	if b.Count() != sub.count || b.Segments() != k || b.Available() != sub.count-sub.n {
+		return vf("blocks/reopen/"+how+"/available", "mapping of the first %d bytes: Segments()=%d Count()=%d Available()=%d, the model has %d of the %d blocks of the first %d segments allocated", p, b.Segments(), b.Count(), b.Available(), sub.n, sub.count, k)
+	}
+	var data []byte
+	if pan := guard(func() { data, err = mfp.Buffer(0, int(p)) }); pan != nil || err != nil {
+		return vf("blocks/reopen/"+how+"/buffer", "Buffer(0,%d) of the partial mapping: err=%v panic=%v", p, err, pan)
+	}
+	return sub.reopenBytes(data, how)
+}
+
+// partialMapping maps only the first p bytes of the file - while the full mapping is live, or between Close and
+// the reopen of the whole file - and opens an allocator there (checkPrefix). Looking at the head of the buffer
+// must not change the state that lives in it: afterwards the bytes of the file (read(2)), the live allocator and
+// a reopen of the whole file must still reproduce the model's set.
+func (m *mon) partialMapping(turn int, cnt map[string]int64) (v *vio, herr error) {
+	lens := m.prefixLens()
+	if len(lens) == 0 {
+		return nil, errHarness{fmt.Errorf("partialMapping: a file of %d bytes has no shorter mappable head", m.size)}
+	}
+	p := lens[(turn/2)%len(lens)]
+	live := turn%2 == 0
+	what := fmt.Sprintf("mapping the first %d of the %d bytes of the file (%d whole segments of %d; full mapping live: %v)", p, m.size, p/m.segSz, m.segs, live)
+	if cnt != nil {
+		if live {
+			cnt["mmfile_partial_mapping_live"]++
+		} else {
+			cnt["mmfile_partial_mapping_after_close"]++
+		}
+		if p < m.segSz {
+			cnt["mmfile_partial_mapping_below_one_segment"]++
+		}
+		if k := p / m.segSz; k > cnt["max_partial_mapping_segments"] {
+			cnt["max_partial_mapping_segments"] = k
+		}
+	}
+	if !live {
+		var err error
+		if pan := guard(func() { err = m.bks.Close() }); pan != nil || err != nil {
+			return vf("blocks/reopen/close", "Close: err=%v panic=%v", err, pan), nil
+		}
+		m.bks, m.base, m.st.buf = nil, nil, nil
+	}
+	mfp, err := files.NewMMFile(m.st.path, p)
+	if err != nil {
+		return nil, errHarness{err}
+	}
+	v = m.checkPrefix(mfp, p)
+	guard(func() { mfp.Close() })
+	if v == nil {
+		// read(2) first: it cannot fault whatever happened to the file
+		var data []byte
+		if data, err = os.ReadFile(m.st.path); err != nil {
+			return nil, errHarness{err}
+		}
+		v = m.reopenBytes(data, "after-partial-mapping")
+	}
+	if v == nil && !live {
+		mf, err := files.NewMMFile(m.st.path, -1)
+		if err != nil {
+			return nil, errHarness{err}
+		}
+		m.st.buf = mf
+		if mf.Size() != m.size {
+			v = vf("blocks/reopen/after-partial-mapping/size", "reopened mapping has size %d, file was created with %d", mf.Size(), m.size)
+		} else {
+			v = m.open("reopen/after-partial-mapping")
+		}
+	}
+	if v == nil {
+		v = m.full(what)
+	}
+	if v != nil {
+		v.what = "after " + what + ": " + v.what
+	}
+	return v, nil
+}
+
 // ---------------------------------------------------------------------------------------------------
 // geometry sweep
 
@@ -1490,7 +1628,7 @@ func enumeration(run *report.Run, plan enumPlan) {
 // through 0 %, the boundary of each segment, 100 % (with churn at each target) and back to 0 %. The O(1) monitor
 // runs after every operation, the full monitor (all patterns, all address ranges, reopen) every w.Every
 // operations and whenever a target level is first reached. On a mapped file the full monitor additionally
-// rotates through second mapping / Close+reopen / os.ReadFile.
+// rotates through second mapping / Close+reopen / os.ReadFile / a mapping of only the head of the file (partialMapping).
 func runWalk(w witness, visit func(tclass), cnt map[string]int64) (v *vio, failAt int, herr error) {
 	m, v, herr := newMon(w.BS, w.Size, w.Fit, w.Backend)
 	if v != nil || herr != nil {
@@ -1520,7 +1658,7 @@ func runWalk(w witness, visit func(tclass), cnt map[string]int64) (v *vio, failA
 	ti, hovered, reached := 0, 0, false
 	oobs := []int{-1, count, count + 1, -count, count + B, math.MaxInt, math.MinInt, -B}
 	maxKey := fmt.Sprintf("max_allocated_bs%d", m.bs)
-	mmfTurn, fulls := 0, 0
+	mmfTurn, partTurn, fulls := 0, 0, 0
 	fullCheck := func(after string) (*vio, error) {
 		if cnt != nil {
 			cnt["full_checks"]++
@@ -1539,7 +1677,14 @@ func runWalk(w witness, visit func(tclass), cnt map[string]int64) (v *vio, failA
 			return nil, nil
 		}
 		mmfTurn++
-		switch mmfTurn % 3 {
+		turn := mmfTurn % 4
+		if turn == 3 && len(m.prefixLens()) == 0 {
+			turn = 2 // a file of one file block has no shorter head
+		}
+		switch turn {
+		case 3:
+			partTurn++
+			return m.partialMapping(partTurn-1, cnt)
 		case 0:
 			if cnt != nil {
 				cnt["mmfile_second_mapping"]++
@@ -1789,6 +1934,7 @@ func walkCases(run *report.Run) (inmem, mmf, huge []witness) {
 		{1, 4096, false, run.Pick(6000, 40000), 200},                          // 455 segments of 9 bytes + 1
 		{8, 4096, false, run.Pick(6000, 40000), 150},                          // 7 segments of 520 bytes + 456
 		{64, roundUp(3*segSize(64), 4096), false, run.Pick(6000, 40000), 300}, // 3 segments + remainder
+		{8, 3 * 4096, false, run.Pick(6000, 40000), 150},                      // 23 segments + 328; heads of 7 and 15 segments
 		{512, roundUp(3*segSize(512), 4096), false, run.Pick(30000, 100000), run.Pick(3000, 2000)},
 	}
 	for i, g := range mgs {
@@ -2581,7 +2727,7 @@ func TestCheck(t *testing.T) {
 	run := report.New("C17", "exploration")
 	defer run.Finish(t)
 	defer tmpCleanup()
-	run.Rule("distinct = (a) geometry classes (block size x accept/reject class x fit x backend) + (b) distinct (geometry, allocated set) model states reached by the enumerated sequences on the tiny geometries + (c) transition classes (block size/backend, operation, index position class, outcome class, fill-level class relative to the segment boundaries) observed in the enumerations and the random walks + (d) concurrent configurations. evaluations = geometry cases + enumerated sequences (every prefix is one monitored case) + walks + concurrent runs")
+	run.Rule("distinct = (a) geometry classes (block size x accept/reject class x fit x backend) + (b) distinct (geometry, allocated set) model states reached by the enumerated sequences on the tiny geometries + (c) transition classes (block size/backend, operation, index position class, outcome class, fill-level class relative to the segment boundaries) observed in the enumerations and the random walks + (d) concurrent configurations. evaluations = geometry cases + enumerated sequences (every prefix is one monitored case) + walks + concurrent runs. The reopen monitor of the mapped-file walks includes mappings of only the head of the file (region shorter than the file, live or after Close): the covered segments' blocks must be reproduced and the whole file's set must be unchanged afterwards")
 	run.Assume("valid block size = GetBlocksInSegment's documented rule (positive; power of two below the page size or a multiple of it); segment = (bs*8+1)*bs bytes; buffers start zeroed")
 	run.Assume("bytes beyond the last whole segment of an oversized buffer (fit=false) are unused; a block there would only be judged for overlap")
 	run.Assume("under concurrency ErrExhausted is judged only in runs where G*(hold+1) < Count(), i.e. where the allocator can at no instant be full")
@@ -2646,7 +2792,7 @@ func TestCheck(t *testing.T) {
 	runWalks(run, append(inmem, mmf...), runtime.NumCPU())
 	wg.Wait()
 	lap("walks")
-	run.Note("walk_full_check_every", "inmem bs=8: every operation; bs=64: every 25; bs=512: every 1000; mapped files: every 150-3000 (rotating second mapping / Close+reopen / os.ReadFile); plus whenever a target fill level (0, each segment boundary, 100 %) is first reached; the O(1) monitor (result class, Available, patterns of the touched block and its neighbours, address range) runs after every operation")
+	run.Note("walk_full_check_every", "inmem bs=8: every operation; bs=64: every 25; bs=512: every 1000; mapped files: every 150-3000 (rotating second mapping / Close+reopen / os.ReadFile / mapping of only the head of the file - one file block, each segment boundary rounded down and up to a file block, the file less one file block; with the full mapping live and between Close and the reopen - which must show the blocks of the segments it covers and leave the whole file's set unchanged); plus whenever a target fill level (0, each segment boundary, 100 %) is first reached; the O(1) monitor (result class, Available, patterns of the touched block and its neighbours, address range) runs after every operation")
 	if len(inmem) > 0 {
 		run.Sample(inmem[0])
 	}
